@@ -221,6 +221,15 @@ theorem registry_programs :
     blockedBy { prog := gcProg, pc := 2 } { prog := statusProgCounting, pc := 1 } = true ∧
     blockedBy { prog := statusProgCounting, pc := 1 } { prog := gcProg, pc := 2 } = true := by decide
 
+/-- refusing a request for an unsupported feature while the connection's read guard is still alive (a temporary in an
+    `if let` scrutinee — seeded change C06d): `on_error` asks for the same connection's lock again; tokio's RwLock is
+    not re-entrant, the task waits for itself -/
+def featureRefusalProgHolding (i : Nat) : Prog := [.acq (3 + i), .step, .acq (3 + i), .step, .rel (3 + i), .rel (3 + i)]
+
+theorem reentry_is_self_deadlock :
+    wellLocked [] (featureRefusalProgHolding 0) = false ∧
+    blockedBy { prog := featureRefusalProgHolding 0, pc := 2 } { prog := featureRefusalProgHolding 0, pc := 2 } = true := by decide
+
 /-! ### non-vacuity -/
 example : blocked [{ prog := handshakeProg 0, pc := 6 }, { prog := apiLiveProg 1, pc := 3 }] { prog := apiLiveProg 1, pc := 3 } = false := by decide
 
